@@ -79,8 +79,27 @@ JoinFrom(args, Q, k) == IF k > Len(args) THEN <<>>
                         ELSE (IF k > 1 THEN <<SP>> ELSE <<>>) \o Quote(args[k], Q) \o JoinFrom(args, Q, k + 1)
 QuoteJoin(args, sq) == JoinFrom(args, QuoteChars(sq), 1)
 
+(* The other documented way of writing an argument: bare, without surrounding quotes, escaping only its quote
+   characters -- a run of N backslashes followed by an allowed quote character is written as 2N+1 backslashes + that
+   character; every other backslash run (also a trailing one: it is followed by the separating space or the end, not
+   by a quote) stays as it is.  Only an empty argument or one containing whitespace has to be wrapped as above.
+   Token boundaries of bare arguments are decided by _Whitespace / _Word, not by a closing quote. *)
+RECURSIVE BareFrom(_, _, _, _)
+BareFrom(a, Q, i, n) ==
+    IF i > Len(a) THEN Rep(BS, n)
+    ELSE IF a[i] = BS THEN BareFrom(a, Q, i + 1, n + 1)
+    ELSE IF a[i] \in Q THEN Rep(BS, 2 * n + 1) \o <<a[i]>> \o BareFrom(a, Q, i + 1, 0)
+    ELSE Rep(BS, n) \o <<a[i]>> \o BareFrom(a, Q, i + 1, 0)
+QuoteMinimal(a, Q) == IF a = <<>> \/ \E i \in DOMAIN a : IsWs(a[i]) THEN Quote(a, Q) ELSE BareFrom(a, Q, 1, 0)
+RECURSIVE JoinMinimalFrom(_, _, _)
+JoinMinimalFrom(args, Q, k) == IF k > Len(args) THEN <<>>
+                               ELSE (IF k > 1 THEN <<SP>> ELSE <<>>) \o QuoteMinimal(args[k], Q)
+                                    \o JoinMinimalFrom(args, Q, k + 1)
+QuoteMinimalJoin(args, sq) == JoinMinimalFrom(args, QuoteChars(sq), 1)
+
 (* ------------------------------------------------------------------ the laws of C50 on observed results
-   c.quoted : TRUE = c.line was produced by QuoteJoin(c.args, c.sq); FALSE = arbitrary string (c.args = <<>>)
+   c.quoted : TRUE = c.line was produced from c.args by a quoting rule; FALSE = arbitrary string (c.args = <<>>)
+   c.minimal: (c.quoted only) TRUE = by QuoteMinimalJoin(c.args, c.sq), FALSE = by QuoteJoin(c.args, c.sq)
    c.line   : the string handed to split;  c.sq : single_quotes_allowed
    o.toks   : cmdline.split(c.line, c.sq);  o.flags : the `quoted` flags Splitter yields (conformance only) *)
 RECURSIVE Flat(_)
@@ -103,13 +122,17 @@ Obtainable(x, i, y, j, sq) ==
          IF Deletable(y, j, sq) THEN take \/ Obtainable(x, i, y, j + 1, sq) ELSE take
 
 \* split . join . quote = identity
-LawInverse(c, o) == c.quoted => o.toks = c.args
+LawInverse(c, o) == (c.quoted /\ ~c.minimal) => o.toks = c.args
+\* the same for arguments written bare with only their quote characters escaped: here the token boundaries come
+\* from the whitespace handling, which the concatenation-based no-loss law cannot see
+LawInverseMinimal(c, o) == (c.quoted /\ c.minimal) => o.toks = c.args
 \* splitting never loses or invents characters outside the quoting syntax: the produced characters, in order, are
 \* the input with only quoting-syntax characters deleted
 LawNoLoss(c, o) == Obtainable(Flat(o.toks), 1, c.line, 1, c.sq)
 
-LawNames == <<"inverse", "noloss">>
-Law(n, c, o) == CASE n = "inverse" -> LawInverse(c, o) [] n = "noloss" -> LawNoLoss(c, o)
+LawNames == <<"inverse", "inverseminimal", "noloss">>
+Law(n, c, o) == CASE n = "inverse" -> LawInverse(c, o) [] n = "inverseminimal" -> LawInverseMinimal(c, o)
+                  [] n = "noloss" -> LawNoLoss(c, o)
 Failed(c, o) == {n \in Range(LawNames) : ~Law(n, c, o)}
 
 SpecOut(c) == Split(c.line, c.sq)
